@@ -1,15 +1,25 @@
-import IRModel.Timer
+import IRModel.Lemmas.TimerLemmas
 /-!
 # C12 — release notifications (event machine)
 
-Lemmas about the model of `Timer` / the two worker loop bodies that hold for every state:
-* `no_fire_before_timeout` : a timer armed at `t` with processing time 0 is not expired while
-  `5·(now − t) < 6·d` — no release is queued by a poll during the documented 20 % padded timeout;
-* `stop_idempotent` : `Timer.stop()` queues the release at most once (a second stop is a no-op);
-* `poll_removes_stopped` : a stopped timer leaves the timer queue at the next poll without firing.
-The "exactly one release per press" statement over all event words is NOT proved; it is explored
-exhaustively to a bounded depth on the model and on the real code (C12_partial), and the model
-reproduces the real behaviour where it is violated (toggle protocols).
+The model (`IRModel/Timer.lean`) is the event machine of `Timer` (ir_code.py), one poll of `TimerThreadWorker.run`,
+the in-order drain of `ProcessThreadWorker.run`, `IRCode.__repeat_reset` with its three kinds of callbacks, and the
+dispatcher/decoder reaction to frames of one enabled protocol, over a virtual microsecond clock.  It is tied to the
+real classes event by event by the correspondence check (tools/props/c12.py).
+
+For decoders of the **same-object style** (the decoder answers a second frame of the held key with its held object:
+NEC, Sony, JVC, Samsung, … — not the toggle style of RC5/RC6, for which the property is false of the code and of the
+model: known finding C12-RC5-released-more-than-once, reproduced below by kernel evaluation) the theorems hold for
+EVERY event word — any interleaving of full frames of any keys, ditto frames, clock movements and polls of the timer
+thread, of any length:
+
+* `C12_at_most_once`           no code object's release callback runs twice;
+* `C12_release_after_delivery` a release callback only runs for a code that was delivered to the decode callback;
+* `C12_exactly_once`           after a silence of at least the padded timeout (1.2 × repeat timeout) every delivered
+                               code has been released exactly once — whatever happened before, superseded keys included.
+The invariant behind them is `Timer.Inv` (IRModel/Lemmas/TimerLemmas.lean): a released object is unreachable (neither
+the decoder's nor the dispatcher's held code, and its timer stopped or out of the timer queue); a delivered, not yet
+released object is in the timer queue with a padded timer armed in the past.
 -/
 namespace IRModel.Props.C12
 open IRModel.Timer
@@ -27,6 +37,37 @@ theorem stop_idempotent (s : St) (i : Nat) (o : Obj) (ho : getObj s i = some o) 
   rw [ho]
   simp [hst]
 
+/-- every state reachable from the initial one by a word in which time does not run backwards satisfies the invariant -/
+theorem reachable_inv (d : Int) (w : List Ev) (hok : ∀ e ∈ w, e.ok) : Inv (run { duration := d } w) :=
+  inv_run w _ (inv_init d) hok
+
+/-- **C12, at most once**: whatever the event word, no code object is released twice -/
+theorem C12_at_most_once (d : Int) (w : List Ev) (hok : ∀ e ∈ w, e.ok) (i : Nat) :
+    relCount (run { duration := d } w).outs i ≤ 1 := by
+  have hi := reachable_inv d w hok
+  rcases Nat.lt_or_ge i (run { duration := d } w).objs.length with h | h
+  · exact (hi.once i _ (List.getElem?_eq_getElem h)).1
+  · rw [hi.beyond i h]; omega
+
+/-- **C12, no release without a press**: a release callback runs only for a code that the decode callback delivered -/
+theorem C12_release_after_delivery (d : Int) (w : List Ev) (hok : ∀ e ∈ w, e.ok) (i k : Nat)
+    (h : Out.released i k ∈ (run { duration := d } w).outs) : Out.decoded i k ∈ (run { duration := d } w).outs :=
+  (reachable_inv d w hok).relafter i k h
+
+/-- **C12, exactly once after the timeout**: after any history, a silence of at least 1.2 × the repeat timeout (one
+    poll of the timer thread, then the process worker) leaves every delivered code released exactly once -/
+theorem C12_exactly_once (d : Int) (w : List Ev) (hok : ∀ e ∈ w, e.ok) (δ : Int) (hδ : 0 ≤ δ) (hlong : 5 * δ ≥ 6 * d)
+    (i k : Nat) (h : Out.decoded i k ∈ (run { duration := d } (w ++ [.advance δ])).outs) :
+    relCount (run { duration := d } (w ++ [.advance δ])).outs i = 1 := by
+  have hi := reachable_inv d w hok
+  have hrun : run { duration := d } (w ++ [.advance δ]) = advance (run { duration := d } w) δ := by
+    simp [run, List.foldl_append, step]
+  rw [hrun] at h ⊢
+  have hdur : (run { duration := d } w).duration = d := run_duration w _ (inv_init d) hok
+  obtain ⟨hig, hall⟩ := silence_releases _ hi δ hδ (by rw [hdur]; exact hlong)
+  obtain ⟨o, ho, hu, _⟩ := hig.delivu i k h
+  exact hall i o ho hu
+
 /-- a concrete schedule: press, ditto, short silence, long silence — one decode per frame, one release -/
 example :
     (run { duration := 108000 } [.frame 1 0, .rep, .advance 50000, .advance 200000]).outs
@@ -36,5 +77,11 @@ example :
 example :
     (run { duration := 108000 } [.frame 1 0, .frame 2 0, .advance 200000]).outs
       = [.decoded 0 1, .released 0 1, .decoded 1 2, .released 1 2] := by decide
+
+/-- the toggle style violates the property (known finding C12-RC5-released-more-than-once): object 0 is released
+    twice.  The theorems above are about the same-object style only; this is the model's replay of the real defect. -/
+example :
+    relCount (run { duration := 108000, style := .toggleReplaces }
+      [.frame 1 1, .frame 1 0, .frame 2 0, .frame 2 0, .advance 400000]).outs 0 = 2 := by decide
 
 end IRModel.Props.C12
